@@ -368,6 +368,20 @@ type Header struct {
 	reserved2 [reservedHeader2Bytes]int64
 }
 
+// CheckHeaderCapacity reports an error when the schema of a given TimeBucketInfo does
+// not fit the fixed-size file header, i.e. when it could not be read back as created.
+func CheckHeaderCapacity(f *TimeBucketInfo) error {
+	if int(f.GetNelements()) > maxNumElements {
+		return fmt.Errorf("a bucket can have at most %d columns, got %d", maxNumElements, f.GetNelements())
+	}
+	for _, name := range f.GetElementNames() {
+		if len(name) > elementNameHeaderBytes {
+			return fmt.Errorf("column name %q is longer than %d bytes", name, elementNameHeaderBytes)
+		}
+	}
+	return nil
+}
+
 // WriteHeader writes the header described by a given TimeBucketInfo to the
 // supplied file pointer.
 func WriteHeader(file *os.File, f *TimeBucketInfo) error {
